@@ -40,7 +40,7 @@ def gen_and_replay(ck, module, constants, timeout=900, replay_args=None, workers
 
 @check("C01")
 def c01(ck):
-    ck.rule = ("every program of <= MaxSize nodes over the GenC01 grammar (10 leaves, 7 unary, 10 binary, "
+    ck.rule = ("every program of <= MaxSize nodes over the GenC01 grammar (11 leaves incl. a too-few-arguments call, 7 unary, 10 binary, "
                "5 ternary forms of def/let/if/do/fn/&/quote/calls) plus a random sample of larger ones, each "
                "evaluated by Def.tla (definition layer) and replayed through lisp.EVAL in a fresh environment; "
                "compared: outcome kind, value, effect log, final globals x y. distinct = distinct program "
